@@ -87,7 +87,11 @@ def execute(case, monitors, iter_cap=400):
                         inc.n_commits = 0
                         n2 = case.get("n_total2", n_total)
                         if case["after_exc"] == "sample_then_run":
-                            s.sample()
+                            s.sample()  # continues the interrupted schedule by one iteration ...
+                            for m in w.monitors:  # ... and run() then starts a new schedule at beta=0: a new phase for the monitors
+                                if hasattr(m, "on_phase"):
+                                    m.on_phase(inc, "rerun")
+                            inc.n_commits = 0
                         s.run(n_total=n2, progress=False)
                         info["completed"] = True
                         info["continued_after_exception"] = True
